@@ -123,6 +123,20 @@ var harnesses = map[string]*Harness{
 		},
 		GoMaxProcs: 2,
 	},
+	"h6codec": {
+		PkgDir:   zz + "h6codec",
+		TestName: "TestVerifH6",
+		Files: map[string]string{
+			zz + "h6codec/h6codec_test.go": "harness/h6codec/h6codec_test.go",
+		},
+		Instrument: []InstrSpec{
+			{File: "internal/types/encoder.go", Opt: instrument.Options{Yield: true, Pool: true, MinPool: 2}},
+			{File: "internal/types/encode.go", Opt: instrument.Options{Yield: true, MapOrder: true, LoopYieldAll: true, MinMap: 1}},
+			{File: "internal/utilities/merklization/state_serialize.go", Opt: instrument.Options{MapOrder: true}},
+			{File: "internal/utilities/merklization/state_key_constructor.go", Opt: instrument.Options{MapOrder: true}},
+		},
+		GoMaxProcs: 2,
+	},
 	"h5cache": {
 		PkgDir:   zz + "h5cache",
 		TestName: "TestVerifH5Cache",
@@ -142,6 +156,21 @@ var harnesses = map[string]*Harness{
 }
 
 var checks = []Check{
+	{
+		Property: "C11", Harness: "h6codec", Level: "exploration",
+		Quick:       tierCfg{budget: 150, maxRuns: 400, shrink: 200},
+		Thorough:    tierCfg{budget: 900, shrink: 1500},
+		RunTimeoutS: 120,
+		Rule:        "one evaluation = 3-10 generated values of the serialisable protocol types (reflection-driven generator that respects the fixed-length invariants of the codec: validator / core / epoch / queue counts, one-of unions, 15-bit import indices; maps filled in tape order; integers biased to the boundaries of the compact encoding) plus fuzz-protocol messages, encoded once by a private fresh encoder, then encoded / hashed / decoded / re-encoded 2-8 times by each of 1-4 concurrent tasks through the shared encoder pool under a tape-chosen interleaving (yield in every loop of the encoder), pool hand-out order (newest, oldest, random, lost objects) and map iteration order (sorted, reversed, random); non-trivial = at least 2 tasks; distinct = multiset of value types",
+		Real:        []string{"internal/types encoder and decoder for every type listed in the harness (blocks, headers, all extrinsics, work packages / items / reports / bundles, every state component, service accounts, state key-values, ancestry)", "the shared encoder pool GetEncoder / PutEncoder (encoder.go instrumented: pool seam), hash.HashEncode", "merklization.StateEncoder", "fuzz.Message MarshalBinary / ReadFrom for all seven message types"},
+		Stub:        []string{"sync.Pool behind encoderPool = tape-driven pool (which pooled encoder is handed out, whether a Put is lost)", "goroutine scheduling = harness scheduler inside a testing/synctest bubble", "Go map iteration order in the instrumented codec files = tape-chosen permutation of the sorted keys", vrfStub + " (compile only)"},
+		Assumptions: []string{"PARTIAL: decides the clause a simulator can own - encoding does not depend on map iteration order, on reuse of pooled encoders or on concurrent use of the pool - and checks the round trip on the values that pass through the simulation; it is not the reflection-driven enumeration of every Encodable type the quantifier asks for (JSON DTO types and test-vector-only types are not generated)", "value equality identifies nil and empty slices / maps (the codec cannot distinguish them)"},
+		LevelText:   "seeded exploration of pool hand-out orders x task interleavings x map iteration orders over generated protocol values; every encoding produced inside the simulation must equal the encoding a private fresh encoder produced before it, stay unchanged while the pool is reused by others, and decode (consuming exactly its length) to a value equal to the original; evidence, not proof",
+		LevelNote:   "partial: the per-value round trip is a pure function and is only checked on the values that pass through the simulation; the deciding dimension is pool reuse / interleaving / map order",
+		Technique:   "deterministic simulation: seeded scheduler over real goroutines (synctest bubble, yield seams in the encoder), simulated sync.Pool and map iteration order, reference-encoding oracle, tape shrinking + fresh-process replay",
+		DesignRef:   "DESIGN.md §13 (H6), §5 C11",
+		ExpectProbes: []string{"probe:pool_encoder_reused", "probe:pool_encoder_fresh", "fault:pool_put_lost", "fault:schedule_decisions", "op:pooled_encode", "op:hash_encode", "op:decode", "op:encode_without_dictionary", "op:state_encoder", "op:message_marshal"},
+	},
 	{
 		Property: "C14", Harness: "h4chain", Level: "exploration",
 		Quick:      tierCfg{budget: 150, maxRuns: 1500, shrink: 20},
